@@ -110,8 +110,14 @@ fn gen_item(rng: &mut Rng, k: usize) -> GenItem {
                 let (fa, _) = other_attrs(rng, "    ");
                 a.push_str(&fa);
                 a.push_str(&mark(maybe_helper(rng, "    ", &mut helpers)));
-                if rng.chance(1, 5) {
-                    a.push_str(&format!("    #[serde(rename = \"renamed{f}\")]\n"));
+                // a rename, plain or conditional; the conditional ones mention the word typeshare in their predicate and must
+                // survive like any other attribute (they are true: the twin crates define no such feature)
+                match rng.below(12) {
+                    0 | 1 => a.push_str(&format!("    #[serde(rename = \"renamed{f}\")]\n")),
+                    2 => a.push_str(&format!("    #[cfg_attr(all(), serde(rename = \"cfgRenamed{f}\"))]\n")),
+                    3 => a.push_str(&format!("    #[cfg_attr(not(feature = \"typeshare\"), serde(rename = \"featRenamed{f}\"))]\n")),
+                    4 => a.push_str("    #[cfg_attr(any(test, not(feature = \"typeshare_off\")), allow(dead_code))]\n"),
+                    _ => {}
                 }
                 a.push_str(&mark(maybe_helper(rng, "    ", &mut helpers)));
                 a.push_str(&format!("    pub field_{f}: {t},\n"));
